@@ -166,7 +166,9 @@ def refine_cases(draw):
         w_prec = list(w_prec)
         w_prec.insert(draw(st.integers(0, len(w_prec))), 0)      # 0 listed anywhere
     return {'spec': spec, 'w_prec': list(w_prec), 'wseed': draw(st.integers(0, 30)),
-            'aseed': draw(st.integers(0, 500))}
+            'aseed': draw(st.integers(0, 500)),
+            # the refinement runs at the end of a search: annealed temperature, grown coefficients
+            'temperature': draw(st.sampled_from([1.0, 1.0, 0.3, 0.05]))}
 
 
 _EDGE = [0, 1, 2, 30, 31, 32, 33, 34, 62, 63, 64, 65, 66, 96]
@@ -203,6 +205,7 @@ def wide_cases(draw):
         w_prec.insert(draw(st.integers(0, len(w_prec))), 0)          # 0 listed anywhere
     return {'spec': spec, 'w_prec': w_prec, 'wseed': draw(st.integers(0, 5)),
             'aseed': draw(st.integers(0, 500)),
+            'temperature': draw(st.sampled_from([1.0, 1.0, 0.3, 0.05])),
             'cuts': [[draw(cut) for _ in range(3)] for _ in range(len(widths) + 1)]}
 
 
@@ -226,7 +229,7 @@ def set_counts(mps, cuts, aseed):
             assign = torch.repeat_interleave(torch.arange(P), torch.tensor(counts))
             assign = assign[torch.randperm(C, generator=g)]
             a[assign, torch.arange(C)] += 1.0
-            q.alpha.copy_(a)
+            q.alpha.copy_(a * (1, 1, 4, 30)[aseed % 4])
             k += 1
 
 
@@ -239,7 +242,8 @@ def oracle_refine(case) -> Result:
     res = Result()
     spec = case['spec']
     mps, x0 = mu.build_mps(spec, case['wseed'], case['w_prec'], [8], per_channel=True,
-                           cost={'ne16': ne16_latency})
+                           cost={'ne16': ne16_latency},
+                           temperature=float(case.get('temperature', 1.0)))
     mu.set_coefficients(mps, case['aseed'])
     if case.get('cuts'):
         set_counts(mps, case['cuts'], case['aseed'])
